@@ -2,7 +2,7 @@
 import kcp_common as K
 
 META = {
-    "enabled": False,
+    "enabled": True,
     "engine": "kcp",
     "technique": "Coq simulation proof: step commutes with shifting own/peer sequence numbers and own/peer clocks by any constants mod 2^32; same-history-at-many-offsets trace comparison on the real cores + model replay at each offset",
     "level_text": "Machine-checked simulation: for all four constants in [0, 2^32) (own/peer numbering, own/peer clock) related states, related calls (datagrams shifted field by field per command) yield related results and states, for every call of the core and - by induction - every history: same return values, same bytes read, same datagrams up to the shift; header leftovers of WASK/WINS are don't-care. Tied to kcp.go by running each generated history on the real cores at five offset triples (0; around 2^31; around 2^32; random; all-ones) and comparing the offset-normalised observable traces, each run also replayed in the extracted model.",
